@@ -52,6 +52,17 @@ def _del(doc, path):
     return doc
 
 
+def unknown_but_valid(old):
+    """A value of the same syntactic kind that names nothing stored: it
+    passes the schemas and reaches the handlers' lookups."""
+    import re
+    if re.match(r'^[0-9a-fA-F]{8}-[0-9a-fA-F-]{27}$', old):
+        return 'deadbeef-dead-4ead-8ead-deadbeef0bad'
+    if re.match(r'^[A-Z0-9_]+$', old):
+        return 'CUSTOM_PV_NOPE'
+    return old + '-nope'
+
+
 def mutated_value(draw, old):
     kind = draw(st.sampled_from(['int', 'float', 'str', 'other', 'near']))
     if kind == 'near' and isinstance(old, bool):
@@ -60,7 +71,10 @@ def mutated_value(draw, old):
         return old + draw(st.sampled_from([-1, 1, 1000, -1000]))
     if kind == 'near' and isinstance(old, str):
         c = draw(st.sampled_from(['upper', 'lower', 'nodash', 'trunc', 'ws',
-                                  'double', 'nl', 'nl', 'prenl', 'tab']))
+                                  'double', 'nl', 'nl', 'prenl', 'tab',
+                                  'unknown', 'unknown', 'unknown']))
+        if c == 'unknown':
+            return unknown_but_valid(old)
         return {'upper': old.upper(), 'lower': old.lower(),
                 'nodash': old.replace('-', ''), 'trunc': old[:-1],
                 'ws': ' ' + old + ' ', 'double': old + old,
@@ -104,7 +118,11 @@ def mutate_body(draw, body):
             parent = parent[p]
         if isinstance(parent, dict):
             val = parent.pop(path[-1])
-            if draw(st.integers(0, 2)) == 0:
+            c = draw(st.integers(0, 3))
+            if c == 3:
+                parent[unknown_but_valid(path[-1])] = val
+                return doc, 'body:rename-key-unknown'
+            if c == 0:
                 # near miss of the old key (what a $-anchored pattern lets by)
                 parent[path[-1] + draw(st.sampled_from(
                     ['\n', ' ', '\t', '\r\n']))] = val
@@ -114,6 +132,36 @@ def mutate_body(draw, body):
     if how == 'dup-value' and isinstance(old, list) and old:
         return _set(doc, path, old + [old[0]]), 'body:dup-item'
     return _set(doc, path, mutated_value(draw, old)), 'body:value'
+
+
+def mutate_semantic(draw, body):
+    """Replace one identifier (a key or a string value that is a UUID or a
+    class / trait name) by a well-formed one that names nothing stored, so
+    that the request passes the schema and fails in a handler's lookup - the
+    place where half-done work can be left behind."""
+    import re
+    doc = copy.deepcopy(body)
+    ident = re.compile(r'^([0-9a-fA-F]{8}-[0-9a-fA-F-]{27}|[A-Z][A-Z0-9_]+)$')
+    cands = []
+    for path, val in json_paths(doc):
+        if path and isinstance(path[-1], str) and ident.match(path[-1]):
+            cands.append(('key', path))
+        if isinstance(val, str) and ident.match(val):
+            cands.append(('value', path))
+    if not cands:
+        return mutate_body(draw, body)
+    what, path = draw(st.sampled_from(cands))
+    if what == 'value':
+        cur = doc
+        for p in path[:-1]:
+            cur = cur[p]
+        cur[path[-1]] = unknown_but_valid(cur[path[-1]])
+        return doc, 'body:unknown-identifier-value'
+    parent = doc
+    for p in path[:-1]:
+        parent = parent[p]
+    parent[unknown_but_valid(path[-1])] = parent.pop(path[-1])
+    return doc, 'body:unknown-identifier-key'
 
 
 def split_path(p):
@@ -278,12 +326,14 @@ def mutate(draw, req):
     for _ in range(n):
         choices = ['query'] if '?' in r['p'] else []
         if r.get('b') is not None and r.get('raw') is None:
-            choices += ['body', 'body', 'body', 'body', 'raw']
+            choices += ['body', 'body', 'body', 'body', 'raw', 'semantic']
         choices += ['path', 'headers', 'method']
         if r['m'] == 'GET':
             choices += ['query', 'query']
         kind = draw(st.sampled_from(choices))
-        if kind == 'body':
+        if kind == 'semantic':
+            r['b'], lb = mutate_semantic(draw, r['b'])
+        elif kind == 'body':
             r['b'], lb = mutate_body(draw, r['b'])
         elif kind == 'raw':
             r['raw'], lb = mutate_raw(draw, r['b'])
